@@ -120,6 +120,7 @@ type GlobalCheck struct {
 }
 
 type ContractSet struct {
+	Rendered map[string]bool // package paths of rendered (generated) packages under contract
 	Checks  []GlobalCheck
 	Events  map[string]*EventDecl
 	UFuncs  map[string]*UFunc
@@ -237,7 +238,7 @@ func loadContracts(root string) (*ContractSet, error) {
 	if err != nil {
 		return nil, err
 	}
-	cs := &ContractSet{Funcs: map[string]*FuncContract{}, Specs: map[string]*SpecFunc{}, PkgDirs: map[string]string{}, UFuncs: map[string]*UFunc{}, Events: map[string]*EventDecl{}}
+	cs := &ContractSet{Funcs: map[string]*FuncContract{}, Specs: map[string]*SpecFunc{}, PkgDirs: map[string]string{}, UFuncs: map[string]*UFunc{}, Events: map[string]*EventDecl{}, Rendered: map[string]bool{}}
 	for _, f := range files {
 		if err := cs.parseFile(root, f); err != nil {
 			return nil, err
@@ -447,6 +448,12 @@ func (cs *ContractSet) parseFile(root, file string) error {
 			}
 			sf := &SpecFunc{Rec: kw == "rec", Pkg: pkg, Name: name, Params: params, Result: resT, Body: e, Src: src, File: file, Line: c.line}
 			cs.Specs[pkg+"."+name] = sf
+			cur = nil
+		case "rendered-package":
+			// the following clauses describe Go text that gleece ships inside a template and that is verified as
+			// rendered into this package of the fixture module
+			pkg = strings.TrimSpace(rest)
+			cs.Rendered[pkg] = true
 			cur = nil
 		case "check":
 			fields := strings.Fields(rest)
